@@ -339,8 +339,8 @@ func c02EngineBody(r c02Req) interface{} {
 		return nil
 	}
 	var m map[string]interface{}
-	if err := json.NewDecoder(strings.NewReader(*r.Body)).Decode(&m); err != nil {
-		return nil
+	if err := json.NewDecoder(strings.NewReader(*r.Body)).Decode(&m); err != nil || m == nil {
+		return nil // the JSON literal null is no object: what the handlers make of it is HTTP-level matter
 	}
 	return m
 }
@@ -356,13 +356,22 @@ func c02Headers(r c02Req) map[string]string {
 	return h
 }
 
-// c02CompileModule applies the CLI's rule to the whole module.
+// c02CompileModule asks the CLI itself (setupRoutes, default mode) how it serves
+// the module: compiled, interpreted although compiled mode was requested (the
+// automatic fallback), or not at all.  The rule is not re-implemented here; only
+// the per-route bytecode is recompiled with the compiler setupRoutes uses,
+// because setupRoutes returns it keyed by path.
 func c02CompileModule(mod *ast.Module) (serve c02Serve, code map[*ast.Route][]byte, why string) {
-	setCompiledTypeDefs(mod)
-	for _, item := range mod.Items {
-		if r, ok := item.(*ast.Route); ok && len(r.Injections) > 0 {
-			return c02Fallback, nil, "provider injection"
-		}
+	useCompiler, _, wsServer, _, err := setupRoutes(mod, "/nonexistent/c02.glyph", false)
+	if wsServer != nil {
+		runtime.Gosched()
+		wsServer.Shutdown()
+	}
+	if err != nil {
+		return c02Refused, nil, err.Error()
+	}
+	if !useCompiler {
+		return c02Fallback, nil, "setupRoutes chose the interpreter"
 	}
 	code = map[*ast.Route][]byte{}
 	c := compiler.NewCompilerWithOptLevel(compiler.OptBasic)
@@ -370,10 +379,7 @@ func c02CompileModule(mod *ast.Module) (serve c02Serve, code map[*ast.Route][]by
 		if r, ok := item.(*ast.Route); ok {
 			bc, err := c.CompileRoute(r)
 			if err != nil {
-				if compiler.IsSemanticError(err) {
-					return c02Refused, nil, err.Error()
-				}
-				return c02Fallback, nil, err.Error()
+				return c02Refused, nil, "setupRoutes serves compiled but CompileRoute fails: " + err.Error()
 			}
 			code[r] = bc
 		}
